@@ -33,6 +33,7 @@ func init() {
 	translators["dokill"] = doKill
 	translators["claimable"] = claimableTable
 	translators["cleanupatomic"] = cleanupAtomic
+	translators["proxymiss"] = proxyMiss
 }
 
 func ownSel(e ast.Expr) (x string, sel string, ok bool) {
@@ -1361,5 +1362,171 @@ func cleanupAtomic() string {
 	var b strings.Builder
 	b.WriteString("(* regenerated on every run by harness/cmd/translate (cleanupatomic) from core/task Manager.Cleanup:\n   no lock acquisition / channel operation / sleep between computing the list of unlocked tasks and killing it *)\n")
 	fmt.Fprintf(&b, "Definition cleanup_no_block : bool := %v.\n", !blocking)
+	return b.String()
+}
+
+// proxymiss: apricot/cacheproxy Service.GetDetectorsForHosts - what happens when a host is not in the
+// start-up snapshot (`det, ok := s.cache.detectorForHost[host]; if !ok {...}`):
+//
+//	0 the whole host list is handed to the backend and its answer returned
+//	1 the backend is asked for that host and the answer is what the loop goes on with (assigned to the loop's
+//	  variable, or added to the result inside the branch)
+//	2 the backend is asked for that host but the answer stays in a variable of the branch (`:=` shadows the
+//	  loop's variable): the loop goes on with the empty name
+func proxyMiss() string {
+	p := ownPkg("apricot/cacheproxy")
+	fd := pkgMethod(p, "Service", "GetDetectorsForHosts")
+	if fd == nil {
+		die("proxymiss: func (s Service) GetDetectorsForHosts not found in apricot/cacheproxy")
+	}
+	hostsParam := ""
+	if fd.Type.Params != nil && len(fd.Type.Params.List) == 1 && len(fd.Type.Params.List[0].Names) == 1 {
+		hostsParam = fd.Type.Params.List[0].Names[0].Name
+	}
+	var loop *ast.BlockStmt
+	hostVar := ""
+	ast.Inspect(fd.Body, func(n ast.Node) bool {
+		switch v := n.(type) {
+		case *ast.RangeStmt:
+			if id, ok := unparen(v.X).(*ast.Ident); ok && id.Name == hostsParam && loop == nil {
+				loop = v.Body
+				if id, ok := v.Value.(*ast.Ident); ok {
+					hostVar = id.Name
+				}
+			}
+		}
+		return loop == nil
+	})
+	if loop == nil || hostVar == "" {
+		die("proxymiss: GetDetectorsForHosts: the loop over the hosts was not found")
+	}
+	// det, ok := <cache>[host]
+	detVar, okVar := "", ""
+	var miss []ast.Stmt
+	for _, st := range loop.List {
+		switch v := st.(type) {
+		case *ast.AssignStmt:
+			if len(v.Lhs) == 2 && len(v.Rhs) == 1 && detVar == "" {
+				if ix, ok := unparen(v.Rhs[0]).(*ast.IndexExpr); ok {
+					if id, ok := unparen(ix.Index).(*ast.Ident); ok && id.Name == hostVar {
+						d, ok1 := v.Lhs[0].(*ast.Ident)
+						o, ok2 := v.Lhs[1].(*ast.Ident)
+						if ok1 && ok2 {
+							detVar, okVar = d.Name, o.Name
+						}
+					}
+				}
+			}
+		case *ast.IfStmt:
+			if detVar == "" || miss != nil {
+				continue
+			}
+			if as, ok := v.Init.(*ast.AssignStmt); ok && len(as.Lhs) == 2 && len(as.Rhs) == 1 {
+				// `if det, ok := cache[host]; !ok` declares variables of the if statement only
+				die("proxymiss: GetDetectorsForHosts: the cache look-up is the init statement of an if")
+			}
+			c := unparen(v.Cond)
+			if u, ok := c.(*ast.UnaryExpr); ok && u.Op == token.NOT {
+				if id, ok := unparen(u.X).(*ast.Ident); ok && id.Name == okVar {
+					miss = v.Body.List
+				}
+			} else if id, ok := c.(*ast.Ident); ok && id.Name == okVar {
+				miss = elseStmts(v)
+			} else if be, ok := c.(*ast.BinaryExpr); ok && be.Op == token.EQL {
+				if id, ok := unparen(be.X).(*ast.Ident); ok && id.Name == okVar {
+					if f, ok := unparen(be.Y).(*ast.Ident); ok && f.Name == "false" {
+						miss = v.Body.List
+					}
+				}
+			}
+		}
+	}
+	if detVar == "" || miss == nil {
+		die("proxymiss: GetDetectorsForHosts: the cache look-up or its miss branch was not found")
+	}
+	onBase := func(c *ast.CallExpr, method string) bool {
+		sel, ok := c.Fun.(*ast.SelectorExpr)
+		if !ok || sel.Sel.Name != method {
+			return false
+		}
+		inner, ok := unparen(sel.X).(*ast.SelectorExpr)
+		return ok && inner.Sel.Name == "base"
+	}
+	mode := -1
+	for _, st := range miss {
+		switch v := st.(type) {
+		case *ast.ReturnStmt:
+			if len(v.Results) >= 1 && mode < 0 {
+				if c, ok := unparen(v.Results[0]).(*ast.CallExpr); ok && onBase(c, "GetDetectorsForHosts") && len(c.Args) == 1 {
+					if id, ok := unparen(c.Args[0]).(*ast.Ident); ok && id.Name == hostsParam {
+						mode = 0
+					}
+				}
+			}
+		case *ast.AssignStmt:
+			if len(v.Rhs) != 1 || mode >= 0 {
+				continue
+			}
+			c, ok := unparen(v.Rhs[0]).(*ast.CallExpr)
+			if !ok || !onBase(c, "GetDetectorForHost") || len(c.Args) != 1 {
+				continue
+			}
+			if id, ok := unparen(c.Args[0]).(*ast.Ident); !ok || id.Name != hostVar {
+				die("proxymiss: GetDetectorsForHosts: the backend is asked about something other than the missing host")
+			}
+			target, ok := v.Lhs[0].(*ast.Ident)
+			if !ok {
+				die("proxymiss: GetDetectorsForHosts: the answer of the backend is not assigned to a variable")
+			}
+			switch {
+			case v.Tok == token.ASSIGN && target.Name == detVar:
+				mode = 1
+			default:
+				// a variable of the branch: the answer counts only if the branch itself adds it to the result
+				mode = 2
+				for _, later := range miss {
+					if as, ok := later.(*ast.AssignStmt); ok && later.Pos() > st.Pos() && len(as.Lhs) == 1 {
+						if ix, ok := as.Lhs[0].(*ast.IndexExpr); ok {
+							if id, ok := unparen(ix.Index).(*ast.Ident); ok && id.Name == target.Name {
+								mode = 1
+							}
+						}
+						if id, ok := as.Lhs[0].(*ast.Ident); ok && id.Name == detVar && as.Tok == token.ASSIGN && target.Name != detVar {
+							if r, ok := unparen(as.Rhs[0]).(*ast.Ident); ok && r.Name == target.Name {
+								mode = 1
+							}
+						}
+					}
+				}
+			}
+		}
+	}
+	if mode < 0 {
+		die("proxymiss: GetDetectorsForHosts: what the miss branch does was not understood")
+	}
+	// the loop goes on with the loop's variable: <result>[det] = ...
+	uses := false
+	for _, st := range loop.List {
+		if as, ok := st.(*ast.AssignStmt); ok && len(as.Lhs) == 1 {
+			if ix, ok := as.Lhs[0].(*ast.IndexExpr); ok {
+				if id, ok := unparen(ix.Index).(*ast.Ident); ok && id.Name == detVar {
+					uses = true
+				}
+			}
+			if c, ok := unparen(as.Rhs[0]).(*ast.CallExpr); ok {
+				if f, ok := c.Fun.(*ast.Ident); ok && f.Name == "append" && len(c.Args) == 2 {
+					if id, ok := unparen(c.Args[1]).(*ast.Ident); ok && id.Name == detVar {
+						uses = true
+					}
+				}
+			}
+		}
+	}
+	if !uses {
+		die("proxymiss: GetDetectorsForHosts: the loop does not add the detector it looked up to the result")
+	}
+	var b strings.Builder
+	b.WriteString("(* regenerated on every run by harness/cmd/translate (proxymiss) from apricot/cacheproxy Service.GetDetectorsForHosts:\n   on a cache miss 0 the whole host list goes to the backend, 1 the backend's answer for that host is used,\n   2 the backend's answer for that host does not reach the result *)\n")
+	fmt.Fprintf(&b, "Definition proxy_miss : nat := %d.\n", mode)
 	return b.String()
 }
